@@ -46,6 +46,12 @@ BranchingOf(live, N) == {u \in 0..(N - 1) : Cardinality(live[u]) >= 2}
 \* the precondition of C01: every reachable vertex has an out-arc and can reach a branching vertex
 WellFormedFrom(live, N, s) == \A u \in Closure(live, N, {s}) :
                                  live[u] # {} /\ Closure(live, N, {u}) \cap BranchingOf(live, N) # {}
+\* the same precondition computed with one backward closure (cheap on large graphs; TLC checks the two agree)
+PredSetIn(live, N, T) == {u \in 0..(N - 1) : \E j \in live[u] : Succ(N, u, j) \in T}
+RECURSIVE BackReach(_, _, _)
+BackReach(live, N, T) == LET T2 == T \cup PredSetIn(live, N, T) IN IF T2 = T THEN T ELSE BackReach(live, N, T2)
+WellFormedFast(live, N, s) == LET R == Closure(live, N, {s}) IN
+                              /\ R \subseteq BackReach(live, N, BranchingOf(live, N)) /\ \A u \in R : live[u] # {}
 NoDeg3From(live, N, s) == \A u \in Closure(live, N, {s}) : Cardinality(live[u]) # 3
 
 \* ---- the statements of C13 for one order ----
